@@ -215,25 +215,38 @@ fn check(c: &SplitPair, obs: &mut Obs) -> Verdict {
     {
         use crate::observe::{run_summary, SummaryErr};
         let last = c.base.iter().map(|r| r.sd).chain(c.with_split.iter().map(|r| r.sd)).max().unwrap_or(sd);
-        let (cut, today) = (last + Duration::days(1), last + Duration::days(200));
-        let summarise = |files: &Vec<(String, String)>| -> Option<BTreeMap<String, (Rat, Option<Rat>)>> {
-            let sm = match run_summary(files, &opts, cut, false, today) { Ok(s) => s, Err(SummaryErr::Panic(_)) | Err(_) => return None };
-            if sm.n_rows == 0 { return Some(BTreeMap::new()); }
+        let today = last + Duration::days(200);
+        // summary at `cut`, written as CSV, read back together with the rows settling after the cut: final holdings per affiliate
+        let summarise = |rows: &Vec<HRow>, cut: time::Date| -> Option<BTreeMap<String, (Rat, Option<Rat>)>> {
+            let files = vec![("h.csv".to_string(), crate::gen::to_csv(rows))];
+            let sm = match run_summary(&files, &opts, cut, false, today) { Ok(s) => s, Err(SummaryErr::Panic(_)) | Err(_) => return None };
+            let later: Vec<HRow> = rows.iter().filter(|r| r.sd > cut).cloned().collect();
+            if sm.n_rows == 0 && later.is_empty() { return Some(BTreeMap::new()); }
+            let mut inputs = vec![];
+            if sm.n_rows > 0 { inputs.push(("summary.csv".to_string(), sm.csv)); }
+            if !later.is_empty() { inputs.push(("later.csv".to_string(), crate::gen::to_csv(&later))); }
             let mut o2 = opts.clone(); o2.symbol_base = vec![]; // the summary replaces the opening position as well
-            let r = run_deltas(&vec![("summary.csv".to_string(), sm.csv)], &o2).ok()?;
+            let r = run_deltas(&inputs, &o2).ok()?;
             let t = r.get("FOO")?; if t.err.is_some() { return None; }
             let mut m = BTreeMap::new(); for row in normalize_all(&t.deltas) { m.insert(row.af.clone(), (row.share_bal.clone(), row.acb.clone())); } Some(m)
         };
+        // cut 1: after the last row (everything is summarised).  cut 2: the day before the first loss sale that settles within 30 days
+        // after the split - the summary then has to carry the split row itself (it cannot fold rows that close to a later loss sale),
+        // so the ratio goes through the CSV writer and reader.
+        let cut2 = m2.rows.iter().filter(|m| m.raw_gain.is_some() && m.sd > sd && (m.sd - sd).whole_days() <= 30).map(|m| m.sd - Duration::days(1)).filter(|d| *d >= sd).min();
         // (with an opening position the summary may or may not take it over - C10's business - so those cases are left out here)
-        if let (true, Some(h1), Some(h2)) = (c.opening.is_none(), summarise(&f1), summarise(&f2)) {
-            let mut ids: Vec<&String> = h1.keys().chain(h2.keys()).collect(); ids.sort(); ids.dedup();
-            for id in ids {
-                let zero = (Rat::zero(), Some(Rat::zero()));
-                let (a1, a2) = (h1.get(id).unwrap_or(&zero), h2.get(id).unwrap_or(&zero));
-                let acb_same = match (&a1.1, &a2.1) { (Some(x), Some(y)) => x.close(y, &tol), (None, None) => true, (Some(x), None) | (None, Some(x)) => x.is_zero() };
-                if !a1.0.mul(&factor).close(&a2.0, &tol) || !acb_same { return fail(format!("summary of everything: {id} ends with {} shares / cost base {:?} without the split and {} shares / {:?} with it (expected x {}/{})", a1.0, a1.1.as_ref().map(|x| x.to_string()), a2.0, a2.1.as_ref().map(|x| x.to_string()), c.a, c.b)); }
+        for (what, cut) in [("summary of everything", Some(last + Duration::days(1))), ("summary up to the day before a loss sale that follows the split", cut2)] {
+            let Some(cut) = cut else { continue };
+            if let (true, Some(h1), Some(h2)) = (c.opening.is_none(), summarise(&c.base, cut), summarise(&c.with_split, cut)) {
+                let mut ids: Vec<&String> = h1.keys().chain(h2.keys()).collect(); ids.sort(); ids.dedup();
+                for id in ids {
+                    let zero = (Rat::zero(), Some(Rat::zero()));
+                    let (a1, a2) = (h1.get(id).unwrap_or(&zero), h2.get(id).unwrap_or(&zero));
+                    let acb_same = match (&a1.1, &a2.1) { (Some(x), Some(y)) => x.close(y, &tol), (None, None) => true, (Some(x), None) | (None, Some(x)) => x.is_zero() };
+                    if !a1.0.mul(&factor).close(&a2.0, &tol) || !acb_same { return fail(format!("{what} (cut {cut}), read back with the later rows: {id} ends with {} shares / cost base {:?} without the split and {} shares / {:?} with it (expected x {}/{})", a1.0, a1.1.as_ref().map(|x| x.to_string()), a2.0, a2.1.as_ref().map(|x| x.to_string()), c.a, c.b)); }
+                }
+                obs.class(if what.starts_with("summary of everything") { "summary-front-end-compared" } else { "summary-carrying-the-split-row-compared" });
             }
-            obs.class("summary-front-end-compared");
         }
     }
     // classification
